@@ -424,6 +424,67 @@ func addTemplate(t *rapid.T, g *prog.Generated) string {
 	return "template:" + shape
 }
 
+// addModes declares one or two intensional (rule-defined, bottom-up) predicates with mode declarations. A mode
+// declaration must not make analysis accept a rule whose head variable gets no value from the body: such a
+// predicate has no caller that could provide it. At every argument position the declared modes are one of
+// {-}, {?}, {+,?}, {+,-}, {-,?}; a position whose modes are all "+" is not drawn while K73 is a known finding (the
+// tree takes such an argument for bound, pinned by TestCheckRuleBindsByDecl).
+func addModes(t *rapid.T, g *prog.Generated) string {
+	if rapid.IntRange(0, 3).Draw(t, "modes") != 0 {
+		return ""
+	}
+	heads := map[string]int{}
+	var names []string
+	for _, r := range g.Prog.Rules {
+		if _, ok := heads[r.Head.Pred]; !ok && len(r.Head.Args) > 0 {
+			heads[r.Head.Pred] = len(r.Head.Args)
+			names = append(names, r.Head.Pred)
+		}
+	}
+	for _, d := range g.Prog.Decls {
+		delete(heads, d.Pred)
+	}
+	if len(heads) == 0 {
+		return ""
+	}
+	added := false
+	for _, name := range names {
+		ar, ok := heads[name]
+		if !ok || rapid.IntRange(0, 1).Draw(t, "modePred") != 0 {
+			continue
+		}
+		nm := rapid.IntRange(1, 2).Draw(t, "nModes")
+		modes := make([][]string, nm)
+		for i := 0; i < ar; i++ {
+			var col []string
+			allPlus := stats.Exclusion("K73-input-mode-on-bottom-up-predicate")
+			for {
+				col = col[:0]
+				plus := 0
+				for m := 0; m < nm; m++ {
+					x := rapid.SampledFrom([]string{"+", "-", "?", "?"}).Draw(t, "argMode")
+					if x == "+" {
+						plus++
+					}
+					col = append(col, x)
+				}
+				if !(allPlus && plus == nm) {
+					break
+				}
+			}
+			for m := 0; m < nm; m++ {
+				modes[m] = append(modes[m], col[m])
+			}
+		}
+		g.Prog.Decls = append(g.Prog.Decls, prog.Decl{Pred: name, Arity: ar, Modes: modes})
+		added = true
+	}
+	if !added {
+		return ""
+	}
+	return "mode-decls"
+}
+
 func genCase(t *rapid.T) Case {
 	var g prog.Generated
 	if rapid.IntRange(0, 5).Draw(t, "withAgg") == 0 {
@@ -438,6 +499,9 @@ func genCase(t *rapid.T) Case {
 		if name := addTemplate(t, &c.Gen); name != "" {
 			c.Mutations = append(c.Mutations, name)
 		}
+	}
+	if name := addModes(t, &c.Gen); name != "" {
+		c.Mutations = append(c.Mutations, name)
 	}
 	c.Mutations = append(c.Mutations, mutate(t, &c.Gen)...)
 	c.Text = c.Gen.Prog.Source()
